@@ -381,6 +381,12 @@ def main(tier):
     import copyrule
     ncp = copyrule.copy_agreement(prog, chk, "C20e", classes=[c for c in prog.classes if c in ("PolyElem", "Polygons")])
     chk.floor("C20e", ncp, 3)
+    import c20_more
+    import c05_skip
+    c20_more.float_sized_vector_rule(prog, chk)
+    c20_more.csv_partition_rule(prog, chk)
+    # C20w: `flag_sel` set means the samples masked by the previous selection stay out
+    c05_skip.selection_switch_rule(prog, chk, "C20w", ("src/Polygon/",), 1)
     chk.extra["exhaustive"] = True
     chk.extra["checker_cmd"] = "./check C20 --tier " + tier
     chk.extra["trusted_base"] = ["clang 14 front end (AST)", "gsa-extract", "rules/e6_abseval.py (rational interpreter)",
